@@ -39,7 +39,12 @@ type wSrc struct {
 	grantor     string
 	propsK      []string
 	propsV      []string
+	// stale: the source message already carries a ReplicateInfo (the source cluster is
+	// itself a replication target, or a producer left an empty info)
+	stale *commonpb.ReplicateInfo
 }
+
+var wCurStale *commonpb.ReplicateInfo
 
 var wOpKinds = []string{
 	"CreateDatabase", "DropDatabase", "AlterDatabase", "Flush", "CreateIndex", "DropIndex", "AlterIndex",
@@ -58,12 +63,19 @@ func wKV(ks, vs []string) []*commonpb.KeyValuePair {
 }
 
 func wMsgBase(t commonpb.MsgType) *commonpb.MsgBase {
-	return &commonpb.MsgBase{MsgType: t, MsgID: 77, SourceID: 5}
+	b := &commonpb.MsgBase{MsgType: t, MsgID: 77, SourceID: 5}
+	if wCurStale != nil {
+		cp := *wCurStale
+		b.ReplicateInfo = &cp
+	}
+	return b
 }
 
 // wBuildOp builds the op message of the given kind from s, stamped ts.
 func wBuildOp(kind string, s *wSrc, ts uint64) msgstream.TsMsg {
 	bm := wBase(ts, 0)
+	wCurStale = s.stale
+	defer func() { wCurStale = nil }()
 	switch kind {
 	case "CreateDatabase":
 		return &msgstream.CreateDatabaseMsg{BaseMsg: bm, CreateDatabaseRequest: &milvuspb.CreateDatabaseRequest{Base: wMsgBase(commonpb.MsgType_CreateDatabase), DbName: s.db}}
